@@ -18,6 +18,7 @@ import (
 	"fmt"
 	"io"
 	"net/http"
+	"strings"
 
 	"github.com/brocaar/lorawan"
 	"github.com/brocaar/lorawan/backend"
@@ -410,11 +411,22 @@ func build(sw *sim.World) {
 		w.byEUI[lorawan.EUI64(rec.dev.DevEUI)] = rec
 	}
 	netIDs := make([]lorawan.NetID, nNS)
+	senderIDs := make([]string, nNS)
 	for i := range netIDs {
 		r.Fill(netIDs[i][:])
 		netIDs[i][2] = byte(i + 1)
+		// a network server may spell its NetID in any form the backend
+		// interfaces accept as hexadecimal; the NS KEK is configured under the
+		// SenderID as that server sends it
+		senderIDs[i] = netIDs[i].String()
+		switch r.Intn(4) {
+		case 0:
+			senderIDs[i] = strings.ToUpper(senderIDs[i])
+		case 1:
+			senderIDs[i] = "0x" + senderIDs[i]
+		}
 		if r.Intn(2) == 0 {
-			w.keks[netIDs[i].String()] = r.Bytes([]int{16, 24, 32}[r.Intn(3)])
+			w.keks[senderIDs[i]] = r.Bytes([]int{16, 24, 32}[r.Intn(3)])
 		}
 	}
 	if w.faults && r.Intn(4) == 0 {
@@ -439,7 +451,7 @@ func build(sw *sim.World) {
 		i := i
 		n := 2 + simrt.Choose(12)
 		sub := simrt.Raw()
-		sw.Spawn(fmt.Sprintf("ns%d", i), func() { nsTask(w, i, netIDs[i], n, sub) })
+		sw.Spawn(fmt.Sprintf("ns%d", i), func() { nsTask(w, i, netIDs[i], senderIDs[i], n, sub) })
 	}
 }
 
@@ -459,8 +471,9 @@ func sortedKeys(m map[string][]byte) []string {
 // ---------------------------------------------------------------- NS task
 
 type request struct {
-	kind      int // 0 join, 1..3 rejoin type 0..2, 4 homeNS
-	gen       int // key generation the device used to build the request
+	sender    string // SenderID as this network server spells its NetID
+	kind      int    // 0 join, 1..3 rejoin type 0..2, 4 homeNS
+	gen       int    // key generation the device used to build the request
 	dev       spec.Device
 	rec       *devRec
 	nonce     uint16 // DevNonce or RJCount
@@ -503,7 +516,7 @@ func genCFList(r *sim.Rand) []byte {
 	return b
 }
 
-func nsTask(w *world, id int, netID lorawan.NetID, n int, sub uint64) {
+func nsTask(w *world, id int, netID lorawan.NetID, senderID string, n int, sub uint64) {
 	r := sim.NewRand(sub)
 	me := simrt.Current()
 	var txID uint32 = uint32(id+1) * 100000
@@ -513,7 +526,7 @@ func nsTask(w *world, id int, netID lorawan.NetID, n int, sub uint64) {
 		}
 		simrt.Progress()
 		live := k == n // last request: faults have stopped (J6)
-		rq := &request{netID: netID}
+		rq := &request{netID: netID, sender: senderID}
 		txID++
 		rq.txID = txID
 		rq.rec = w.devs[r.Intn(len(w.devs))]
@@ -639,7 +652,7 @@ func countFaults(c *reqCtx, rq *request) {
 func doRequest(w *world, r *sim.Rand, rq *request, c *reqCtx, faults, live bool) {
 	countFaults(c, rq)
 	simrt.Trace(evReq, uint64(rq.kind), uint64(rq.txID))
-	sender := rq.netID.String()
+	sender := rq.sender
 	receiver := hex.EncodeToString(rq.joinEUI[:])
 	switch rq.kind {
 	case 0:
